@@ -24,6 +24,16 @@ def do_import():
             shutil.copy(os.path.join(d, "patch.diff"), dst)
             shutil.copy(m, dst)
             print("imported", name)
+    for m in sorted(glob.glob("/tmp/refac5/*/out/r*/meta.json")):   # wave 5 -> w5<area>-rK
+        d = os.path.dirname(m)
+        name = f"w5{d.split('/')[3]}-{os.path.basename(d)}"
+        dst = os.path.join(DST, name)
+        if os.path.exists(dst) or not os.path.exists(os.path.join(d, "patch.diff")):
+            continue
+        os.makedirs(dst)
+        shutil.copy(os.path.join(d, "patch.diff"), dst)
+        shutil.copy(m, dst)
+        print("imported", name)
 
 
 def fresh(scratch):
